@@ -158,7 +158,22 @@ def make_frame(spec):
     # partition columns are interleaved with the value columns, not just appended
     names = order[:1] + [k["name"] for k in spec["keys"]] + order[1:]
     cols.update(vc)
-    return pd.DataFrame({c: cols[c] for c in names})
+    df = pd.DataFrame({c: cols[c] for c in names})
+    ri = spec.get("row_index", "unique_range")
+    if ri != "unique_range" and n:
+        # ROW INDEX WITH REPEATED LABELS (rows are identified by position, never by label)
+        if ri == "dup_concat":          # pd.concat([a, b]) without ignore_index: 0..h-1 followed by 0..n-h-1
+            labels = list(range((n + 1) // 2)) + list(range(n - (n + 1) // 2))
+        elif ri == "constant":
+            labels = [0] * n
+        elif ri == "dup_scattered":     # a few labels, scattered, named index
+            labels = [(j * 3) % 4 for j in range(n)]
+        elif ri == "equals_key":        # the index carries the values of the first partition key
+            labels = list(df[spec["keys"][0]["name"]].astype(object))
+        else:
+            raise KeyError(ri)
+        df.index = pd.Index(labels, name="lab" if ri == "dup_scattered" else None)
+    return df
 
 
 def kind_of(x):
@@ -258,7 +273,8 @@ def check_partitioned(fastparquet, spec):
         kw = {}
         if spec["rgo"] is not None:
             kw["row_group_offsets"] = spec["rgo"]
-        fastparquet.write(root, df, file_scheme=scheme, partition_on=keys, write_index=False, **kw)
+        write_index = bool(spec.get("write_index", False))
+        fastparquet.write(root, df, file_scheme=scheme, partition_on=keys, write_index=write_index, **kw)
         files = [_os.path.join(dp, f) for dp, _dn, fn in _os.walk(root) for f in fn
                  if f not in ("_metadata", "_common_metadata")]
         where = {}
@@ -288,6 +304,8 @@ def check_partitioned(fastparquet, spec):
                 for c in valcols:
                     if not cell_equal(part[c].iloc[j], df[c].iloc[pos]):
                         return f"part file {segs}: row rid={rid} column {c}: {part[c].iloc[j]!r} != {df[c].iloc[pos]!r}"
+                if write_index and not cell_equal(part.index[j], df.index[pos]):
+                    return f"part file {segs}: row rid={rid} stored with index label {part.index[j]!r}, written {df.index[pos]!r}"
         missing = sorted(set(expected) - set(where))
         if missing:
             return f"{len(missing)} rows with non-null keys are in no part file, e.g. rid={missing[:3]}"
@@ -308,6 +326,8 @@ def check_partitioned(fastparquet, spec):
             for c in valcols:
                 if not cell_equal(out[c].iloc[j], df[c].iloc[pos]):
                     return f"row rid={rid} column {c}: read {out[c].iloc[j]!r}, written {df[c].iloc[pos]!r}"
+            if write_index and not cell_equal(out.index[j], df.index[pos]):
+                return f"row rid={rid}: index label read {out.index[j]!r}, written {df.index[pos]!r}"
             for c, v, seg, name in zip(outcols, kv, where[rid], keys):
                 r = out[c].iloc[j]
                 if scheme == "hive":
@@ -503,6 +523,25 @@ def enumerate_write_cases(tier):
                            "rgo_kind": rg, "rgo": rgo_for(rg, rows)}
 
 
+    # ROW INDEX WITH REPEATED LABELS: pd.concat of two frames without ignore_index, a constant index, a few scattered labels
+    # (named index), an index equal to the first partition key; index dropped (write_index=False) and stored (True); the
+    # multiset of rows must be preserved and every row must sit under its own key directory
+    for scheme in ("hive", "drill"):
+        for ri_i, ri in enumerate(("dup_concat", "constant", "dup_scattered", "equals_key")):
+            for wi in (False, True):
+                for rg in ("none", "int", "list"):
+                    for ki, kinds in enumerate((("int64",), ("str_plain",), ("int64", "str_plain"), ("bool", "int64"))):
+                        n += 1
+                        if tier == "quick" and (ri_i + ki + int(wi) + ("none", "int", "list").index(rg)) % 2 and not (rg == "none" and not wi):
+                            continue
+                        rows = [8, 13, 30][n % 3]
+                        yield {"scheme": scheme,
+                               "keys": [{"name": nm, "kind": kd, "card": 2 + (n + i) % 2, "off": (n + i) % 3}
+                                        for i, (nm, kd) in enumerate(zip(("p", "q"), kinds))],
+                               "rows": rows, "pattern": ["full", "blocks", "diag"][n % 3], "nulls": False, "bundle": BUNDLES[n % 2],
+                               "unused": False, "rgo_kind": rg, "rgo": rgo_for(rg, rows), "row_index": ri, "write_index": wi}
+
+
 # names one of which is a suffix / prefix / inner substring of another (never a value-column name of the bundles V0, V1 used with them)
 RELATED_NAMES = [("grid", "id"), ("ab", "b"), ("x", "xx"), ("year_month", "month"), ("kk", "k", "akkb")]
 
@@ -542,7 +581,8 @@ def features_of(spec):
             "unused_categories": bool(spec["unused"]), "values": spec["bundle"], "rgo": spec["rgo_kind"],
             "null_tail": bool(spec.get("null_tail_key")),
             "all_null_row_group_with_categorical_key": _null_row_group_hazard(spec),
-            "names": "+".join(k["name"] for k in spec["keys"]), "name_relation": name_relation([k["name"] for k in spec["keys"]])}
+            "names": "+".join(k["name"] for k in spec["keys"]), "name_relation": name_relation([k["name"] for k in spec["keys"]]),
+            "row_index": spec.get("row_index", "unique_range"), "write_index": bool(spec.get("write_index", False))}
 
 
 DRILL_MIXED = [["007", "abc"], ["1", "x1", "2.5"], ["True", "maybe", "False"], ["2020-01-01", "someday", "7"],
@@ -663,7 +703,7 @@ def run_bounded(ctx):
                       "3 keys: 20 triples x 3 patterns; rows 1..60, null keys, unused categories, 4 value-column bundles "
                       "(int, float+NaN, str+None, bool, datetime, categorical, Int64, uint8); partition column NAMES containing one another "
                       "(grid+id, ab+b, x+xx, year_month+month, kk+k+akkb: suffix / prefix / inner substring) in both orders, hive, 3 kind "
-                      "combinations x 2 patterns, values differing between the columns")
+                      "combinations x 2 patterns, values differing between the columns; plus frames whose ROW INDEX HAS REPEATED LABELS (concat without ignore_index / constant / scattered named / equal to the first key) x write_index False|True x row_group_offsets none/int/list x 4 key tuples x hive|drill")
     ctx.bounded_group(GM, rule="drill levels mixing re-typable and plain text, 5 value sets x PYTHONHASHSEED 0..3 (thorough 0..7) in child "
                       "processes; the case holds only if it holds under every hash seed")
 
